@@ -408,7 +408,7 @@ pub fn inject(rng: &mut Rng, mut idl: Idl, class: &str) -> Idl {
 /// texts the parser should reject (mutations of a valid text); the real parser decides
 pub fn mutate_text(rng: &mut Rng, text: &str) -> (String, &'static str) {
     let chars: Vec<char> = text.chars().collect();
-    match rng.below(12) {
+    match rng.below(15) {
         0 => (String::new(), "empty"),
         1 => (text.replacen("interface ", "interfac ", 1), "bad-keyword"),
         2 => {
@@ -445,6 +445,18 @@ pub fn mutate_text(rng: &mut Rng, text: &str) -> (String, &'static str) {
         8 => (format!("{}\nmethod Zz(a: int) - > ()\n", text), "bad-arrow"),
         9 => (format!("{}\ntype Zz (_a: int)\n", text), "underscore-field"),
         10 => (text.lines().filter(|l| !l.starts_with("interface ")).collect::<Vec<_>>().join("\n"), "no-interface-line"),
-        _ => (format!("{}\nmethod Zz(a: [int]string) -> ()\n", text), "bad-dict"),
+        11 => (format!("{}\nmethod Zz(a: [int]string) -> ()\n", text), "bad-dict"),
+        12 => {
+            // an interface without members, the text ending in a newline: the parse error is at the very end
+            let name_line = text.lines().find(|l| l.trim_start().starts_with("interface ")).unwrap_or("interface org.example.x");
+            (format!("{}\n", name_line.trim_end()), "no-members-newline")
+        }
+        13 => (format!("{}\nmethod Zz(a: int,\n", text.trim_end()), "truncated-after-newline"),
+        _ => {
+            // cut right after a newline somewhere in the text, then an unfinished member ending in a newline
+            let nl: Vec<usize> = text.char_indices().filter(|(_, c)| *c == '\n').map(|(i, _)| i).collect();
+            let cut = if nl.is_empty() { text.len() } else { nl[rng.below(nl.len())] + 1 };
+            (format!("{}type Zz (\n", &text[..cut]), "truncated-after-newline")
+        }
     }
 }
